@@ -36,6 +36,7 @@ extern "C" {
 }
 
 const RLIMIT_AS: i32 = 9;
+const CLOCK_MONOTONIC: i32 = 1;
 
 fn clock_ns(clk: i32) -> i64 {
     let mut ts = Timespec { tv_sec: 0, tv_nsec: 0 };
@@ -151,6 +152,7 @@ struct Slot {
     active: AtomicU64,
     clock: AtomicI32,
     start_ns: AtomicI64,
+    wall_start_ns: AtomicI64,
     label_ptr: AtomicUsize,
     label_len: AtomicUsize,
 }
@@ -160,6 +162,7 @@ const SLOT_INIT: Slot = Slot {
     active: AtomicU64::new(0),
     clock: AtomicI32::new(0),
     start_ns: AtomicI64::new(0),
+    wall_start_ns: AtomicI64::new(0),
     label_ptr: AtomicUsize::new(0),
     label_len: AtomicUsize::new(0),
 };
@@ -197,6 +200,7 @@ pub fn api<T>(label: &'static str, f: impl FnOnce() -> T) -> T {
     let start = clock_ns(clk);
     slot.clock.store(clk, Ordering::Relaxed);
     slot.start_ns.store(start, Ordering::Relaxed);
+    slot.wall_start_ns.store(clock_ns(CLOCK_MONOTONIC), Ordering::Relaxed);
     slot.label_ptr.store(label.as_ptr() as usize, Ordering::Relaxed);
     slot.label_len.store(label.len(), Ordering::Relaxed);
     if idx == 0 {
@@ -242,7 +246,11 @@ pub fn start_watchdog(budget_s: f64, log_path: Option<String>) {
                 if slot.active.load(Ordering::Acquire) != seq {
                     continue;
                 }
-                if now - start > budget {
+                // a call that makes no progress at all (blocked on a lock): decided on wall-clock time, but only
+                // when the thread used (almost) no CPU in the meantime, so a loaded machine cannot trigger it
+                let wall = clock_ns(CLOCK_MONOTONIC) - slot.wall_start_ns.load(Ordering::Relaxed);
+                let blocked = wall > 4 * budget && (now - start) * 50 < wall;
+                if now - start > budget || blocked {
                     let lp = slot.label_ptr.load(Ordering::Relaxed);
                     let ll = slot.label_len.load(Ordering::Relaxed);
                     // SAFETY: label is a &'static str
@@ -252,10 +260,12 @@ pub fn start_watchdog(budget_s: f64, log_path: Option<String>) {
                     let case = CUR_CASE.load(Ordering::Relaxed);
                     let frame = gdb_innermost_frame();
                     let line = format!(
-                        "\nHANG case={} label={} cpu_s={:.1} frame={}\n",
+                        "\nHANG case={} label={} cpu_s={:.1} wall_s={:.1} kind={} frame={}\n",
                         case,
                         label,
                         (now - start) as f64 / 1e9,
+                        wall as f64 / 1e9,
+                        if blocked { "blocked" } else { "busy" },
                         frame
                     );
                     if let Some(p) = &log_path {
